@@ -113,3 +113,13 @@ Section Preflight.
       + injection H as <- <- <-. auto.
   Qed.
 End Preflight.
+
+(** C09: a paused owner keeps probing: the result of reconciling an object is what the cache holds. *)
+Lemma paused_still_probes c between w ow prev p w' evs r :
+  ow_paused ow = true -> reconcile_object c between w ow prev p = (w', evs, r) ->
+  r = RErr ErrOwnerRef \/
+  r = match cache_get w (desired_key ow p) with Some o => ROk o | None => RMissing end.
+Proof.
+  intros Hp. unfold reconcile_object. destruct (set_controller_l _ _ _ []); [|intros H; injection H as _ _ <-; now left].
+  rewrite Hp. destruct (cache_get w (desired_key ow p)); intros H; injection H as _ _ <-; now right.
+Qed.
